@@ -222,11 +222,13 @@ ChildExit ==
   /\ s' = [s EXCEPT !.crashed = (Ev.signal # 0 \/ Ev.code # 0)]
 
 Note == Step("Note") /\ s' = s
+\* a function that was never named (another instantiation of the same generic function) still runs its own code
+Neighbour == Step("Neighbour") /\ Req("C03", Ev.ok) /\ s' = s
 
 TraceNext ==
   \/ Target \/ Acquire \/ InstallBegin \/ Mmap \/ Munmap \/ WriteTramp \/ WriteEntry \/ WriteOther
   \/ Flush \/ Mprotect \/ InstallEndOk \/ InstallEndPanic \/ Call \/ UserPanic \/ DropBegin \/ DropEnd
-  \/ Diff \/ Fresh \/ ChildExit \/ Note \/ CallUnwind
+  \/ Diff \/ Fresh \/ ChildExit \/ Note \/ CallUnwind \/ Neighbour
 
 TraceSpec == TraceInit /\ [][TraceNext]_tvars
 
